@@ -170,7 +170,7 @@ CHECKS["C15"] = dict(
          "slice of a larger buffer and as a slice of a buffer beyond 64 KiB, and compared byte for byte; every returned string "
          "must be valid UTF-8; a panic is attributed to its case by bisection.",
     design_ref="DESIGN.md §5 C15",
-    note="Not decided (valid text or an error required): slices reaching outside the string, empty split/replace patterns, radix "
+    note="Not decided (valid text or an error required): slices reaching outside the string, radix "
          "or zero padding of negative numbers, to_number on texts the documentation does not classify, float values. TLC found that "
          "the width law cannot hold for values starting with a combining mark (it merges with the fill).",
     technique="TLC-enumerated cases with predictions from Strings.tla (laws asserted on the definitions) replayed into the runtime",
